@@ -388,6 +388,12 @@ type tally struct {
 }
 
 func judgeGraph(c *vl.Ctx, e *sched.Engine, g *graph, pr *sched.Project, r *sched.ProjResult, t *tally) {
+	if r.Nondet {
+		// the compiler's output for this project varies between fresh processes under one
+		// schedule: that is property C14's business; this graph is counted as not explored here
+		c.Count("graphs_not_explored_output_varies_under_one_schedule(C14)", 1)
+		return
+	}
 	t.mu.Lock()
 	t.exec += r.Executions
 	t.points += r.Points
